@@ -137,20 +137,29 @@ func (c *Ctx) extractFindCall(method string) (*findCall, error) {
 		fc.deltaByMode[true], fc.deltaByMode[false] = k, k
 		return fc, nil
 	}
-	phi, ok := delta.(*ssa.Phi)
-	if !ok {
+	// a choice on key.Minor in any shape (if/else, default then override, helper with two returns): guarded alternatives
+	tr := c.plainTracer()
+	alts := tr.alts(lval{delta, fn, nil}, 0)
+	if len(alts) < 2 {
 		return nil, fmt.Errorf("delta of find in %s is neither a constant nor a two-way choice on key.Minor", method)
 	}
-	// the phi's block must be the join of an If on key.Minor
-	for i, e := range phi.Edges {
-		k, ok := constInt(e)
+	for _, a := range alts {
+		k, ok := constInt(a.leaf.v)
 		if !ok {
 			return nil, fmt.Errorf("delta alternative is not constant in %s", method)
 		}
-		pred := phi.Block().Preds[i]
-		side, ok := c.branchSide(pred, isKeyMinor)
-		if !ok {
+		side, known := false, false
+		for _, g := range a.conds {
+			gl := tr.trace(g.cond)
+			if len(gl.chain) == 0 && isKeyMinor(gl.v) {
+				side, known = g.want, true
+			}
+		}
+		if !known {
 			return nil, fmt.Errorf("delta alternative not controlled by key.Minor in %s", method)
+		}
+		if prev, dup := fc.deltaByMode[side]; dup && prev != k {
+			return nil, fmt.Errorf("two different deltas for the same mode in %s", method)
 		}
 		fc.deltaByMode[side] = k
 	}
